@@ -4,7 +4,7 @@ Harness h_ec (modes arith / ecdsa / conv / keygen); references: OpenSSL
 EC_POINT_* and ECDSA_do_verify, GMP RFC 7748 ladder, RFC 6979 generator over
 OpenSSL HMAC, i2d_ECDSA_SIG.
 """
-from vrun import Job
+from vrun import Job, ALT_FLAVOURS
 
 LEVEL = 'exploration'
 RULE = ('per EC implementation x supported curve: enumerated special scalars (1,2,3,4,n-1,n-2,n-3,(n+-1)/2,15,16,'
@@ -14,7 +14,9 @@ RULE = ('per EC implementation x supported curve: enumerated special scalars (1,
         'RFC 7748 vectors, random, low-order, twist, non-canonical u, short scalars; ECDSA: every signer x EC '
         'implementation x hash in rotation against RFC 6979, each signature verified by rotating verifiers, '
         'arbitrary hash lengths 0..72, 22 value mutations, raw length and 16 DER structure mutations, invalid '
-        'public keys; raw<->asn1 round trips; keygen+compute_pub per implementation x curve. A case is distinct '
+        'public keys; raw<->asn1 round trips; keygen+compute_pub per implementation x curve (private key also minimal / '
+        'zero-padded / short); valid points with extreme x (0..64, p-64..p-1, 2^E+-k at the exponents of the field prime) '
+        'under mul and muladd with scalars 1, 2, n-1, random; the br_ecdsa_*_get_default signers and verifiers. A case is distinct '
         'by (implementation, curve, operation, input class, scalar encoding) resp. (signer/verifier, '
         'implementation, curve, hash, mutation class, expected verdict).')
 ASSUMPTIONS = [
@@ -35,6 +37,8 @@ EVAL = ['cmp_const', 'cmp_mul', 'cmp_mulgen', 'cmp_muladd', 'cmp_invalid_point',
         'cmp_keygen_range', 'cmp_pubkey']
 DISTINCT = ['arith_cfg', 'ecdsa_cfg', 'conv_cfg', 'keygen_cfg', 'vrfy_hashlen']
 REQUIRED = ['cmp_const', 'cmp_mul', 'cmp_mulgen', 'cmp_muladd', 'cmp_muladd_must_fail', 'cmp_muladd_zero_multiplier',
+            'cmp_mul_extreme_point', 'cmp_muladd_extreme_point', 'cmp_sign_default', 'cmp_vrfy_default',
+            'cmp_pubkey_encoding_shapes',
             'vrfy_cases_with_e_zero', 'cmp_invalid_point',
             'cmp_kat', 'cmp_sign', 'cmp_vrfy_accept', 'cmp_vrfy_reject', 'cmp_vrfy_must_reject',
             'cmp_conv_r2a', 'cmp_conv_a2r', 'cmp_conv_roundtrip', 'cmp_conv_must_fail',
@@ -97,6 +101,27 @@ def jobs(tier, seed):
         out.append((3.0, Job('keygen-%d' % w, 'h_ec', ['--mode', 'keygen', '--cases', 12 if q else 600, '--seed', seed,
                                                         '--worker', w, '--nworkers', nk],
                              flavour='asan', libs=LIBS, timeout=300 if q else 2400)))
+    # ---- the other arithmetic configurations of the library (alt-*: native MUL15, 32-bit-only with slow
+    #      multiplier, constant-time multiplication macros + portable ARSH; os: -Os without instrumentation):
+    #      every implementation x curve pair on every one of them, special values included
+    for fl in ALT_FLAVOURS:
+        for impl, curve, ms in PAIRS:
+            if impl.startswith('all_'):
+                continue
+            ncase = int(min(4000, (6.0 if q else 90.0) / (1.5 * ms / 1000.0)))
+            out.append((ncase * 1.5 * ms / 1000.0,
+                        Job('arith-%s-%s@%s' % (impl, curve, fl), 'h_ec',
+                            ['--mode', 'arith', '--impl', impl, '--curve', curve, '--cases', ncase,
+                             '--seed', seed, '--worker', 0, '--nworkers', 1, '--thorough', 0],
+                            flavour=fl, libs=LIBS, timeout=300 if q else 2400)))
+        for curve, nsig in (('P256', 40 if q else 1500), ('P384', 16 if q else 500), ('P521', 8 if q else 250)):
+            out.append((20.0, Job('ecdsa-%s@%s' % (curve, fl), 'h_ec',
+                                  ['--mode', 'ecdsa', '--curve', curve, '--cases', nsig, '--seed', seed,
+                                   '--worker', 0, '--nworkers', 1, '--nverify', 2, '--nmut', 3, '--thorough', 0],
+                                  flavour=fl, libs=LIBS, timeout=300 if q else 2400)))
+        out.append((3.0, Job('keygen@%s' % fl, 'h_ec', ['--mode', 'keygen', '--cases', 4 if q else 100, '--seed', seed,
+                                                      '--worker', 0, '--nworkers', 1],
+                             flavour=fl, libs=LIBS, timeout=300 if q else 2400)))
     # longest first, so that the pool of 16 stays busy to the end
     out.sort(key=lambda t: -t[0])
     return [j for _, j in out]
